@@ -1,12 +1,26 @@
 #!/bin/bash
 # Build polysim (test binary, go1.26.8, -tags verif, harmony overlay) from /repo's working tree.
+# Optional argument: another command directory under sim/cmd (used while developing an engine in isolation).
+# POLYSIM_REPO=<dir>: build against another checkout of polynetwork/poly (scratch worktree with a
+# deliberate mutation) instead of /repo; output goes to .build/<cmd>-alt-<hash>.test and its path is printed.
 set -e
 VERIF=$(cd "$(dirname "$0")/.." && pwd)
 export GOFLAGS=-mod=mod GOPROXY=off GOSUMDB=off GOTOOLCHAIN=local CGO_ENABLED=1
 mkdir -p "$VERIF/.build"
-exec 9>"$VERIF/.build/lock"; flock 9
-"$VERIF/tools/genoverlay.sh" "$VERIF/.build/overlay"
+CMD=${1:-polysim}
+REPO=${POLYSIM_REPO:-/repo}
 cd "$VERIF/sim"
-# keep go.sum a superset of /repo's
-cat /repo/go.sum go.sum 2>/dev/null | sort -u > "$VERIF/.build/go.sum.new" && cp "$VERIF/.build/go.sum.new" go.sum
-go1.26.8 test -c -tags verif -overlay "$VERIF/.build/overlay/overlay.json" -o "$VERIF/.build/polysim.test" ./cmd/polysim
+if [ "$REPO" = /repo ]; then
+  exec 9>"$VERIF/.build/lock"; flock 9
+  "$VERIF/tools/genoverlay.sh" "$VERIF/.build/overlay"
+  # keep go.sum a superset of /repo's
+  cat /repo/go.sum go.sum 2>/dev/null | sort -u > "$VERIF/.build/go.sum.new" && { cmp -s "$VERIF/.build/go.sum.new" go.sum || cp "$VERIF/.build/go.sum.new" go.sum; }
+  go1.26.8 test -c -tags verif -overlay "$VERIF/.build/overlay/overlay.json" -o "$VERIF/.build/$CMD.test" ./cmd/$CMD
+else
+  TAG=$(echo "$REPO" | md5sum | cut -c1-8)
+  ALT="$VERIF/.build/alt-$TAG"; mkdir -p "$ALT"
+  REPO="$REPO" "$VERIF/tools/genoverlay.sh" "$ALT/overlay"
+  sed "s#=> /repo#=> $REPO#" go.mod > "$ALT/go.mod"; cat "$REPO/go.sum" go.sum | sort -u > "$ALT/go.sum"
+  go1.26.8 test -c -modfile="$ALT/go.mod" -tags verif -overlay "$ALT/overlay/overlay.json" -o "$VERIF/.build/$CMD-alt-$TAG.test" ./cmd/$CMD
+  echo "$VERIF/.build/$CMD-alt-$TAG.test"
+fi
